@@ -78,12 +78,15 @@ profile('core-close', P.gen_core_close, cancels=0.0)
 # property -> {'profiles': [(name, quick_runs, thorough_runs)], 'oracles': [...]}
 CHECKS = {
     'C01': {'profiles': [('core', 3000, 120000), ('core-msg', 1000, 40000), ('core-frag', 1500, 60000),
-                         ('core-stall', 1500, 60000), ('core-await', 1000, 40000), ('core-close', 2000, 60000)],
+                         ('core-stall', 1500, 60000), ('core-await', 1000, 40000), ('core-close', 2000, 60000),
+                         ('reconnect', 2000, 60000)],
             'oracles': {'core': [O.oracle_c01], 'core-msg': [O.oracle_c01], 'core-frag': [O.oracle_c01], 'core-stall': [O.oracle_c01],
-                        'core-await': [O.oracle_c01], 'core-close': [O.oracle_c01_close]}, 'level': 'exploration'},
+                        'core-await': [O.oracle_c01], 'core-close': [O.oracle_c01_close], 'reconnect': [XR.oracle_c01_reconnect]},
+            'level': 'exploration'},
     'C03': {'profiles': [('core-frag', 2500, 100000), ('core-stall', 1000, 40000), ('core-msg', 500, 20000),
-                         ('frag-grid', 4000, 'grid')],
-            'oracles': [O.oracle_c03], 'level': 'exploration'},
+                         ('frag-grid', 4000, 'grid'), ('reconnect', 2000, 60000)],
+            'oracles': {'core-frag': [O.oracle_c03], 'core-stall': [O.oracle_c03], 'core-msg': [O.oracle_c03], 'frag-grid': [O.oracle_c03],
+                        'reconnect': [XR.oracle_c03_reconnect]}, 'level': 'exploration'},
     'C04': {'profiles': [('parser', 20000, 600000)], 'oracles': [XP.oracle_c04], 'level': 'exploration'},
     'C05': {'profiles': [('core-stall', 3500, 140000), ('core-frag', 1500, 60000), ('core', 1000, 40000),
                          ('core-cancel', 1000, 40000)],
@@ -92,8 +95,11 @@ CHECKS = {
                          ('core-eager', 1000, 40000), ('core-await', 1000, 40000)],
             'oracles': [O.oracle_c06], 'level': 'exploration'},
     'C08': {'profiles': [('core', 2000, 80000), ('core-cancel', 2000, 80000), ('core-ends', 1500, 60000),
-                         ('core-lease', 1000, 40000), ('core-eager', 1000, 40000), ('core-await', 1000, 40000)],
-            'oracles': [O.oracle_c08], 'level': 'exploration'},
+                         ('core-lease', 1000, 40000), ('core-eager', 1000, 40000), ('core-await', 1000, 40000),
+                         ('reconnect', 2000, 60000)],
+            'oracles': {'core': [O.oracle_c08], 'core-cancel': [O.oracle_c08], 'core-ends': [O.oracle_c08], 'core-lease': [O.oracle_c08],
+                        'core-eager': [O.oracle_c08], 'core-await': [O.oracle_c08], 'reconnect': [XR.oracle_c08_reconnect]},
+            'level': 'exploration'},
     'C13': {'profiles': [('core-ids', 5000, 200000), ('core', 1000, 40000), ('id-reuse', 2000, 60000)],
             'oracles': {'core-ids': [O.oracle_c13], 'core': [O.oracle_c13], 'id-reuse': [PH.oracle_c13_reuse]},
             'level': 'exploration'},
